@@ -12,14 +12,6 @@
 
 using namespace wc;
 
-static std::vector<int> gCodes;
-static std::vector<std::vector<int>> gHdrSets, gCookieSets;
-static std::vector<size_t> gLens;
-static std::vector<size_t> gSizes; // stream chunk sizes
-static std::vector<long> gInts;
-static std::vector<std::vector<StreamOp>> gPrograms;
-static std::vector<ReqSpec> gReqs;
-static std::vector<std::string> gBodies;
 static uint64_t nA, nB, nC;
 
 static std::string spec_desc(const RspSpec& s)
@@ -218,105 +210,12 @@ static void caseC(uint64_t i, vr::Ctx& ctx)
     ctx.outcome("request ok");
 }
 
-static void gen_programs(int Kops, bool quick)
-{
-    // units: an op optionally followed by a flush
-    std::vector<StreamOp> units;
-    for (size_t sz : gSizes)
-        units.push_back({ OP_WRITE, (long)sz });
-    for (size_t sz : { size_t(1), size_t(9), size_t(16), size_t(255) })
-        units.push_back({ OP_CSTR, (long)sz });
-    for (long v : gInts)
-        units.push_back({ OP_INT, v });
-    (void)quick;
-    std::function<void(std::vector<StreamOp>&, int)> rec = [&](std::vector<StreamOp>& cur, int depth) {
-        gPrograms.push_back(cur);
-        if (depth == Kops)
-            return;
-        for (auto& u : units)
-        {
-            for (int fl = 0; fl < 2; ++fl)
-            {
-                cur.push_back(u);
-                if (fl)
-                    cur.push_back({ OP_FLUSH, 0 });
-                rec(cur, depth + 1);
-                if (fl)
-                    cur.pop_back();
-                cur.pop_back();
-            }
-        }
-    };
-    std::vector<StreamOp> cur;
-    rec(cur, 0);
-}
-
 int main(int argc, char** argv)
 {
     vr::Options opt = vr::parse_args(argc, argv);
     bool thorough   = opt.geti("thorough", 0);
     int Kops        = opt.geti("Kops", 2);
-    if (thorough)
-    {
-        gCodes = { 100, 101, 102, 103, 200, 201, 202, 203, 204, 205, 206, 207, 208, 226, 300, 301, 302, 303, 304, 305, 307, 308, 400, 401, 402, 403, 404, 405, 406, 407, 408, 409, 410, 411, 412, 413, 414, 415, 416, 417, 418, 421, 422, 423, 424, 426, 428, 429, 431, 444, 451, 499, 500, 501, 502, 503, 504, 505, 506, 507, 508, 510, 511, 599 };
-        for (size_t l = 0; l <= 2200; ++l)
-            gLens.push_back(l);
-        gSizes = { 0, 1, 9, 10, 15, 16, 17, 255, 256, 4095, 4096, 65536 };
-        gInts  = { 0, 7, 10, 105, 1000, -5 };
-    }
-    else
-    {
-        gCodes = { 200, 204, 301, 404, 500 };
-        for (size_t l = 0; l <= 600; l += 1)
-            gLens.push_back(l);
-        for (size_t l = 1000; l <= 1100; ++l)
-            gLens.push_back(l);
-        for (size_t l = 2000; l <= 2100; ++l)
-            gLens.push_back(l);
-        gSizes = { 0, 1, 9, 10, 16, 17, 255, 256, 4096, 65536 };
-        gInts  = { 0, 7, 10, 105, -5 };
-    }
-    gHdrSets    = { {}, { 0 }, { 1 }, { 0, 2, 3 }, { 4, 5, 6 }, { 1, 3 } };
-    gCookieSets = { {}, { 0 }, { 1, 2 } };
-    if (!thorough)
-    {
-        gHdrSets    = { {}, { 0, 2, 3 }, { 1, 6 } };
-        gCookieSets = { {}, { 1, 2 } };
-    }
-    gen_programs(Kops, !thorough);
-    gBodies = req_bodies();
-    // request product: methods x resources x queries x header sets (<=2) x cookies x bodies (thinned)
-    {
-        auto hs = header_sets((int)req_headers().size(), 2);
-        int rot = 0;
-        for (size_t mth = 0; mth < methods().size(); ++mth)
-            for (size_t r = 0; r < resources().size(); ++r)
-                for (size_t q = 0; q < queries().size(); ++q)
-                    for (size_t h = 0; h < hs.size(); ++h)
-                    {
-                        if (!thorough && (h + mth + r) % 4 != 0)
-                            continue;
-                        for (int c = 0; c <= 3; ++c)
-                        {
-                            ReqSpec s;
-                            s.method   = (int)mth;
-                            s.resource = (int)r;
-                            s.query    = (int)q;
-                            s.headers  = hs[h];
-                            s.ncookies = c;
-                            s.body     = (rot++) % 7;
-                            gReqs.push_back(s);
-                        }
-                    }
-        // every single-byte body value
-        for (size_t b = 0; b < gBodies.size(); ++b)
-        {
-            ReqSpec s;
-            s.method = 1;
-            s.body   = (int)b;
-            gReqs.push_back(s);
-        }
-    }
+    build_space(thorough, Kops);
     nA = (uint64_t)gCodes.size() * gHdrSets.size() * gCookieSets.size();
     nB = (uint64_t)gPrograms.size() * 3;
     nC = gReqs.size();
